@@ -32,11 +32,13 @@ _MT("mt.sq_default_params_full", ["C03", "C01"], MT_T, MT_TM, "sq_default_params
     "bounded:3 channels; complete over all 32-bit channel sizes", ["Squeeze::set_default_params"], _DSQ + _PUSH, tier="thorough", timeout=1200)
 _MT("mt.sq_default_params_explicit", ["C03", "C01"], MT_T, MT_TM, "sq_default_params_explicit", "bounded:3 channels, one explicit step",
     ["Squeeze::set_default_params"], "num_sq > 0: the parsed parameter list is returned unchanged")
+_CNT = ("number of derived steps == (2 iff > 2 non-meta channels and channel nb_meta+1 has the size of channel nb_meta) + ceil(log2(w/8)) + "
+        "ceil(log2(h/8)) (0 below 9); the loop terminates; no overflow in the halving (step contents are not read back). ")
 _MT("mt.sq_default_params_count", ["C03", "C01"], MT_T, MT_TM, "sq_default_params_count_full",
-    "bounded:3 channels and 1 channel; complete over all 32-bit channel sizes; library Vec::push on the parser's capacity-0 vector",
-    ["Squeeze::set_default_params"],
-    "number of derived steps == (2 iff > 2 non-meta channels and channel nb_meta+1 has the size of channel nb_meta) + ceil(log2(w/8)) + "
-    "ceil(log2(h/8)) (0 below 9) for ALL 32-bit sizes; the loop terminates within 30 iterations; no overflow in the halving")
+    "bounded:3 channels; complete over all 32-bit channel sizes", ["Squeeze::set_default_params"], _CNT + _PUSH)
+_MT("mt.sq_default_params_count_realvec", ["C03", "C01"], MT_T, MT_TM, "sq_default_params_count_realvec",
+    "bounded:3 channels; channel sizes <= 64; library Vec::push on the parser's capacity-0 vector (real growth path)",
+    ["Squeeze::set_default_params"], _CNT)
 _MT("mt.vec_push_real", ["C03"], MT_T, MT_TM, "vec_push_real_contract", "bounded:Vec<SqueezeParams> of capacity 4, length 0..3",
     ["Vec::push"], "library push: appends x, keeps earlier elements")
 _MT("mt.vec_push_model", ["C03"], MT_T, MT_TM, "vec_push_model_contract", "bounded:Vec<SqueezeParams> of capacity 4, length 0..3",
@@ -49,27 +51,81 @@ _SQS = ("requires nb_meta_channels < 3 = number of channels; sizes, shifts (any 
         "shift of that direction +1 on both unless negative, residuals inserted right after begin_c+num_c-1 (in place) or appended (not in "
         "place) in channel order, every other channel unchanged, nb_meta_channels += num_c iff begin_c < nb_meta_channels, and "
         "nb_meta_channels < number of channels still holds")
-_MT("mt.sq_meta_step_in_place", ["C03", "C01"], MT_T, MT_TM, "sq_meta_step_in_place",
-  "bounded:channel list of 3, one step, every (begin_c, num_c) with begin_c <= 3, num_c <= 4 incl. out-of-range ones; in_place = true",
-  ["Squeeze::transform_channel_info"], _SQS, timeout=300)
-_MT("mt.sq_meta_step_appended", ["C03", "C01"], MT_T, MT_TM, "sq_meta_step_appended",
-  "bounded:channel list of 3, one step, every (begin_c, num_c) with begin_c <= 3, num_c <= 4 incl. out-of-range ones; in_place = false",
-  ["Squeeze::transform_channel_info"], _SQS, timeout=300)
+for _h, _what in (("ip_b0n1", "in place, (begin_c, num_c) = (0, 1)"), ("ip_b0n2", "in place, (0, 2)"), ("ip_b1n1", "in place, (1, 1)"),
+                  ("ip_tail", "in place, (0, 3), (1, 2), (2, 1) (no channel after endc)"),
+                  ("ip_range", "in place, out-of-range (0, 4), (2, 2), (3, 1)"),
+                  ("app_b0", "not in place, (0, 1), (0, 2), (0, 3)"), ("app_b12", "not in place, (1, 1), (1, 2), (2, 1)"),
+                  ("app_range", "not in place, out-of-range (0, 4), (2, 2), (3, 1)")):
+    _MT("mt.sq_meta_step_" + _h, ["C03", "C01"], MT_T, MT_TM, "sq_meta_step_" + _h,
+        "bounded:channel list of 3, one step, %s; sizes, shifts, nb_meta_channels, direction symbolic" % _what,
+        ["Squeeze::transform_channel_info"], _SQS, timeout=300)
 _MT("mt.sq_meta_step_covers", ["C03"], MT_T, MT_TM, "sq_meta_step_covers",
   "bounded:channel list of 3, step (begin_c 0, num_c 2)", ["Squeeze::transform_channel_info"],
   "vacuity guards of mt.sq_meta_step_*: each acceptance / rejection reason is reachable; acceptance == MetaSqueeze", timeout=300)
-_MT("mt.palette_meta", ["C03", "C01"], MT_T, MT_TM, "palette_meta_contract",
-  "bounded:channel list of 4, every (begin_c, num_c) shape incl. out-of-range ones; sizes / shifts / nb_colours / nb_deltas symbolic",
-  ["Palette::transform_channel_info"],
-  "requires nb_meta_channels < 4, nb_colours <= 70911, nb_deltas <= 66816 (parser ranges). ensures: Ok iff begin_c+num_c <= #channels, not "
-  "(begin_c < nb_meta <= endc), and all of begin_c..=endc have the size of channel begin_c (code compares sizes only; libjxl's "
-  "CheckEqualChannels additionally compares shifts -- reported); Err is InvalidPaletteParams; on Ok: list = [nb_colours x num_c, "
-  "shift -1] ++ old list without begin_c+1..=endc; nb_meta_channels += 1, or += 2 - num_c inside the meta channels; nb_meta < #channels")
+_PALM = ("requires nb_meta_channels < 4, nb_colours <= 70911, nb_deltas <= 66816 (parser ranges). ensures: Ok iff begin_c+num_c <= #channels, not "
+         "(begin_c < nb_meta <= endc), and all of begin_c..=endc have the size of channel begin_c (code compares sizes only; libjxl's "
+         "CheckEqualChannels additionally compares shifts -- reported); Err is InvalidPaletteParams; on Ok: list = [nb_colours x num_c, "
+         "shift -1] ++ old list without begin_c+1..=endc; nb_meta_channels += 1, or += 2 - num_c inside the meta channels; nb_meta < #channels")
+for _h, _what in (("b0", "(begin_c, num_c) = (0, 1), (0, 2), (0, 3), (0, 4)"), ("b123", "(1, 1), (1, 3), (2, 2), (3, 1)"),
+                  ("range", "out-of-range (0, 5), (3, 2), (4, 1)")):
+    _MT("mt.palette_meta_" + _h, ["C03", "C01"], MT_T, MT_TM, "palette_meta_" + _h,
+        "bounded:channel list of 4, %s; sizes / shifts / nb_meta_channels / nb_colours / nb_deltas symbolic" % _what,
+        ["Palette::transform_channel_info"], _PALM, timeout=300)
 _MT("mt.rct_meta", ["C03", "C01"], MT_T, MT_TM, "rct_meta_contract",
   "bounded:channel lists of 2, 3, 4; begin_c 0..2; rct_type any parser value (<= 73)", ["Rct::transform_channel_info"],
   "Ok iff begin_c + 3 <= #channels and the three channels have equal sizes; Err is InvalidRctParams; the channel list is unchanged. "
   "(The code accepts rct_type 42..73, RCT across the meta boundary and unequal shifts; libjxl rejects those -- reported.)")
-_MT("mt.sq_default_applied_rgb", ["C03", "C01"], MT_T, MT_TM, "sq_default_applied_rgb",
-  "bounded:3 equal channels w x h, 1 <= w, h <= 16", ["TransformInfo::prepare_transform_info", "Squeeze::set_default_params", "Squeeze::transform_channel_info"],
-  "prepare_transform_info of a default squeeze (num_sq = 0) is Ok; resulting list has 7 + 3*(steps) channels, luma / chroma sizes and shifts "
-  "are the ceil halves per step, the non-in-place chroma residuals stay at the end of the list", timeout=300)
+_MT("mt.sq_meta_two_steps", ["C03", "C01"], MT_T, MT_TM, "sq_meta_two_steps",
+    "bounded:channel list of 3, the two steps (H, not in place, 1, 2), (V, not in place, 1, 2) = the chroma steps of the default sequence",
+    ["Squeeze::transform_channel_info"],
+    "the step list is applied in order, each step to the channel list left by its predecessor (== MetaSqueeze o MetaSqueeze); accepted iff "
+    "both steps are", timeout=300)
+
+# ---- transform/palette.rs: per-sample values ----------------------------------------------------
+_PV = ("requires: palette grid nb_colours x num_c, num_c target grids of one size, nb_deltas <= 66816 (parser range), d_pred = Zero; index = ANY "
+       "i32. ensures: every output sample == libjxl GetPaletteValue(index, c, nb_colours, min(bitdepth, 24)) in mathematical integers: "
+       "index < 0: kDeltaPalette[(i+1)>>1][c] * (i odd ? 1 : -1), i = (-(index+1)) % 143, times 1 << (min(bitdepth,24) - 8) above 8 bit; "
+       "0 <= index < nb_colours: palette(index, c); nb_colours <= index < nb_colours+64: ((index-nb_colours) >> 2c) % 4 * (2^bitdepth - 1) / 4 "
+       "+ (1 << max(0, bitdepth-3)); index >= nb_colours+64: ((index-nb_colours-64) / 5^c) % 5 * (2^bitdepth - 1) / 4; 0 for c >= 3 in every "
+       "implicit case; no panic. ")
+for _h, _geo, _what in (
+        ("rgb_explicit", "num_c 3, nb_colours 2, 2 pixels", "one pixel explicit (both explicit = fast path inverse_simple), the other any"),
+        ("rgb_delta", "num_c 3, nb_colours 2, 2 pixels", "one pixel a delta entry (index < 0), the other any"),
+        ("rgb_small_cube", "num_c 3, nb_colours 2, 2 pixels", "one pixel in the 4x4x4 cube, the other any"),
+        ("rgb_large_cube", "num_c 3, nb_colours 2, 2 pixels", "one pixel in the 5x5x5 cube (incl. index up to i32::MAX), the other any"),
+        ("rgb_nbc0", "num_c 3, nb_colours 0 (zero-width palette grid), 1 pixel", "any index"),
+        ("gray", "num_c 1, nb_colours 3, 2 pixels", "any indices"),
+        ("extra_explicit", "num_c 5, nb_colours 2, 1 pixel", "explicit entry, channels c = 3, 4"),
+        ("extra_delta", "num_c 5, nb_colours 2, 1 pixel", "delta entry, channels c = 3, 4 (0)"),
+        ("extra_small_cube", "num_c 5, nb_colours 2, 1 pixel", "4x4x4 cube entry, channels c = 3, 4 (libjxl: 0)"),
+        ("extra_large_cube", "num_c 5, nb_colours 2, 1 pixel", "5x5x5 cube entry, channels c = 3, 4 (libjxl: 0)")):
+    K("mt.pal_value_" + _h, ["C03", "C01"], "jxl-modular", MT_P, MT_PM, "pal_value_" + _h,
+      "bounded:%s; complete over sample / index values and bit depth 1..=24; %s" % (_geo, _what),
+      ["Palette::inverse_inner", "inverse_simple"], _PV, timeout=300)
+K("mt.pal_value_hibd_delta", ["C03", "C01"], "jxl-modular", MT_P, MT_PM, "pal_value_hibd_delta",
+  "bounded:num_c 3, nb_colours 1, 1 pixel; bit depth 25..=32, every negative index", ["Palette::inverse_inner"],
+  "delta entries above 24 bit are scaled by 1 << 16 (bit depth clamped to 24; libjxl and the standard's pseudo-code agree)")
+K("mt.pal_value_hibd_explicit", ["C03", "C01"], "jxl-modular", MT_P, MT_PM, "pal_value_hibd_explicit",
+  "bounded:num_c 3, nb_colours 1, 1 pixel; bit depth 25..=32", ["Palette::inverse_inner", "inverse_simple"],
+  "explicit entries are looked up independent of the bit depth")
+for _h, _w in (("small", "4x4x4"), ("large", "5x5x5")):
+    K("mt.pal_value_hibd_%s_cube" % _h, ["C03", "C01"], "jxl-modular", MT_P, MT_PM, "pal_value_hibd_%s_cube" % _h,
+      "bounded:num_c 3, nb_colours 1, 1 pixel; bit depth 25..=29, every index of the %s cube" % _w, ["Palette::inverse_inner"],
+      "implicit cube entry == the formula at the UNCLAMPED bit depth in mathematical integers (standard's pseudo-code / property text). "
+      "NOTE: libjxl (InvPalette, from memory) clamps the bit depth to 24 for every branch; the two references differ above 24 bit, "
+      "this row pins the code's present, standard-conformant behaviour")
+K("mt.pal_total_hibd", ["C01", "C03"], "jxl-modular", MT_P, MT_PM, "pal_total_hibd",
+  "bounded:num_c 3, nb_colours 1, 1 pixel; bit depth 25..=32 (31 = largest integer depth, 32 = float), every index",
+  ["Palette::inverse_inner"],
+  "no panic for any index at any bit depth the image header can carry (jxl-image lib.rs:517-541); explicit entries looked up")
+K("mt.pal_total_many_channels", ["C01", "C03"], "jxl-modular", MT_P, MT_PM, "pal_total_many_channels",
+  "bounded:num_c 17 (parser allows 8192), nb_colours 0, 1 pixel; bit depth 1..=24, every index", ["Palette::inverse_inner"],
+  "no panic for palettes of more than 16 channels (shift amount 2*c)")
+_PD = ("2x2 image, nb_colours 1, 8 bit, nb_deltas any parser value, indices any i32: every output sample == GetPaletteValue + (index < nb_deltas "
+       "? prediction of d_pred from the reconstructed output samples W, N, NW with the H.3 edge rules : 0), wrapped to 32 bits; samples with "
+       "index >= nb_deltas get no prediction; negative indices always do. The predictors' own arithmetic is md.pred_arith_*; "
+       "d_pred = SelfCorrecting (weighted) is NOT covered")
+for _h, _nc in (("west", 2), ("north", 2), ("gradient", 2), ("avg", 1), ("select", 1)):
+    K("mt.pal_delta_pred_" + _h, ["C03", "C01"], "jxl-modular", MT_P, MT_PM, "pal_delta_pred_" + _h,
+      "bounded:image 2x2, num_c %d, nb_colours 1, bit depth 8; complete over indices / palette values / nb_deltas" % _nc,
+      ["Palette::inverse_inner", "PredictorState::properties", "Predictor::predict", "Properties::record"], _PD, timeout=300)
